@@ -12,6 +12,8 @@ use ckc_rs::HandError;
 pub fn c16_two_from_bits() {
     let b = sym::u64();
     let n = b.count_ones();
+    // priming call on an unrelated arbitrary input: a memo / cache in front of a pure function would show here
+    let _ = Two::try_from(b.rotate_left(7) ^ 0x5555);
     let r = Two::try_from(b);
     if n < 2 {
         check!(r == Err(HandError::NotEnoughCards), "fewer than two bits: NotEnoughCards");
